@@ -357,6 +357,13 @@ def points(name, info, quick):
         if lo < 0:               # the non-negative half (deb2 is only defined there)
             for j in range(2 if quick else 20):
                 out.append(('random-nonnegative', [rnd.uniform(1e-3, hi) for _ in range(n)]))
+    # SCALE: many coordinates (a dimension-dependent shortcut, an accumulator type, a hard-coded length only show there)
+    for n in ((64, 1000) if quick else (64, 257, 1000, 5000)):
+        mins = MINIMA.get(name, (None, [], 0))[1]
+        for cval in mins[:1]:
+            out.append(('minimiser', [cval] * n))
+        lo2 = 1e-3 if name == 'deb2' else lo
+        out.append(('random', [round(rnd.uniform(lo2, hi), 3) for _ in range(n)]))
     return out
 
 
